@@ -54,6 +54,19 @@ def corpus(tier):
     out.append('#[derive(Educe)] #[educe(Into(u8), Into(u16), Into(u32))] struct Ty { a: i8, b: i16, c: i32, d: i64 }')
     out.append('#[derive(Educe)] #[educe(Debug, Nope, Clone, Nada, Hash, Zilch)] struct Ty { a: u8 }')
     out.append('#[derive(Educe)] #[educe(Debug, Clone)] struct Ty { #[educe(Nope)] a: u8, #[educe(Nada)] b: u8, #[educe(Zilch)] c: u8 }')
+    for ts in ('PartialOrd, Ord, Deref, DerefMut, Into(u8)', 'Into(u8), DerefMut, Deref, Ord, PartialOrd', 'Debug(unsafe), PartialOrd, Into(u16), Deref', 'Deref, Into(u8), Into(u16), Ord'):
+        out.append('#[derive(Educe)] #[educe(%s)] union Ty { a: u8, b: u16 }' % ts)
+        out.append('#[derive(Educe)] %s union Ty { a: u8 }' % ' '.join('#[educe(%s)]' % t.strip() for t in ts.split(', ') if '(' not in t or t.startswith(('Into', 'Debug'))))
+    out.append('#[derive(Educe)] #[educe(Deref, DerefMut, Into(u8))] enum Ty { A, B, C(u8) }')
+    out.append('#[derive(Educe)] #[educe(Debug(name = false), Deref, Into(u8))] struct Ty;')
+    # explicit bound modes on items that agree in the *number* of generic parameters but not in their kinds or names (anything remembered per count / per name shows)
+    gens = ["<'a, T>", '<T, U>', '<const N: usize, T>', '<U, T>', "<'a, 'b>", '<T, const N: usize>', "<'a, U>", '<A, B>']
+    uses = {"<'a, T>": "&'a T", '<T, U>': '(T, U)', '<const N: usize, T>': '[T; N]', '<U, T>': '(U, T)', "<'a, 'b>": "(&'a u8, &'b u8)", '<T, const N: usize>': '[T; N]', "<'a, U>": "&'a U", '<A, B>': '(A, B)'}
+    for b in ('bound(*)', 'bound = false', 'bound(u8: Copy)'):
+        for ts in ('Clone(%s)', 'Debug(%s), PartialEq(%s)', 'Hash(%s), Default(%s)', 'PartialEq(%s), PartialOrd(%s)'):
+            for g in gens:
+                out.append('#[derive(Educe)] #[educe(%s)] struct Ty%s { f: %s, n: u8 }' % (ts.replace('%s', b), g, uses[g]))
+                out.append('#[derive(Educe)] #[educe(%s)] enum Ty%s { %sA(%s), B { n: u8 } }' % (ts.replace('%s', b), g, '#[educe(Default)] ' if 'Default' in ts else '', uses[g]))
     # the same type under different levels of references / by value, in one process in both orders (anything remembered per type must tell them apart)
     for t in ('u8', 'str', 'W'):
         for lvl in ('{T}', "&'static {T}", "&'static &'static {T}", "&'static mut {T}", '&{T}'):
